@@ -227,7 +227,7 @@ func crashOnce(ctx *xplor.Ctx, net nk.Net, sc scen, g *golden, st *nk.Stores, cp
 	}
 	// best is one the node had legitimately reached or was about to reach
 	j := g.deliveryOf(cp)
-	if id := best.ID(); id != g.bests[j] && id != g.bests[j+1] {
+	if id := best.ID(); id != g.bests[j] && id != g.bests[j+1] && !g.between(g.bests[j], g.bests[j+1], id) {
 		return fmt.Sprintf("after recovery best is block %d, expected the tip before (%d) or after (%d) delivery #%d", idx(g, id), idx(g, g.bests[j]), idx(g, g.bests[j+1]), j), rec
 	}
 	// feeding the same blocks again gives the uncrashed final state
@@ -258,6 +258,29 @@ func crashOnce(ctx *xplor.Ctx, net nk.Net, sc scen, g *golden, st *nk.Stores, cp
 		}
 	}
 	return "", rec
+}
+
+// between: when the delivery extended the main chain by several blocks (orphans
+// connected one after the other inside one addBlock), every block on the way from
+// the old tip to the new tip was legitimately the best block for a moment.
+func (g *golden) between(oldID, newID, id string) bool {
+	o, n, x := g.t.ByID[oldID], g.t.ByID[newID], g.t.ByID[id]
+	if o == nil || n == nil || x == nil {
+		return false
+	}
+	onPath := false
+	for i := n.Idx; i >= 0; i = g.t.Blocks[i].Parent {
+		if i == x.Idx {
+			onPath = true
+		}
+		if i == o.Idx {
+			return onPath // old tip is an ancestor of the new tip and x lies in between
+		}
+		if i == 0 {
+			break
+		}
+	}
+	return false
 }
 
 func libOf(n *nk.Node) string {
